@@ -903,7 +903,7 @@ func c14Compose(c *Ctx) {
 			if filterKind(a) == "Seen" {
 				seenAtom = &p.Atoms[i]
 			}
-			if a.Cond.Op == an.OpLoop && strings.Contains(a.Cond.String(), "auto") {
+			if isLoopFlagAtom(a, "auto") {
 				autoAtom = &p.Atoms[i]
 			}
 		}
